@@ -165,10 +165,13 @@ def shape_violations(errors, value, ntoks, plain):
 
 
 def compare_with_base(run, base):
-    """-> (outcome class, violation text or None).  Sequence SETS are compared (the order of equal-rank sequences, hence the
-    applied one, depends on a randomly seeded HashSet): once the applied sequences differ the rest is not comparable."""
+    """-> (outcome class, violation text or None).  With repair.REPAIR_ORDER_FIXED (/repo ca69cd1: the order of equal-rank
+    sequences, hence the applied one, is a function of the input) the sequence LISTS are compared and a run that applies a
+    different sequence than the undisturbed one is a violation.  Without it only the SETS are compared (a randomly seeded
+    HashSet decided the order) and once the applied sequences differ the rest is not comparable."""
     E1, E0 = run.sets(), base.sets()
     F1, F0 = run.firsts(), base.firsts()
+    L1, L0 = [[" ".join(q) for q in e[3]] for e in run.errors], [[" ".join(q) for q in e[3]] for e in base.errors]
     for i in range(len(E1)):
         if i >= len(E0):
             return "more_errors", "error %d reported after every error of the undisturbed run, same sequences applied so far" % i
@@ -184,7 +187,13 @@ def compare_with_base(run, base):
             return "differs", ("error %d carries a different SET of repair sequences than in the undisturbed run (%d vs %d sequences): "
                                "a recovery cut short must report none" % (i, len(E1[i][2]), len(E0[i][2])))
         if F1[i] != F0[i]:
+            if repair.REPAIR_ORDER_FIXED:
+                return "order_differs", ("error %d: same set of %d sequences, but the APPLIED sequence (repairs()[0]) is [%s] and [%s] in the "
+                                   "undisturbed run: the applied repair is not a function of the input" % (i, len(E1[i][2]), F1[i], F0[i]))
             return "diverged_by_hash_order(%s)" % ("gave_up_later" if not E1[-1][2] else "all_repaired"), None
+        if repair.REPAIR_ORDER_FIXED and L1[i] != L0[i]:
+            return "order_differs", ("error %d: same set of %d sequences and same applied sequence, but the reported LIST is in a different "
+                               "order than in the undisturbed run" % (i, len(E1[i][2])))
     if len(E1) < len(E0):
         return "fewer_errors", ("every reported error carries repairs and the same sequences were applied, but the undisturbed run "
                                 "goes on to report %d more error(s)" % (len(E0) - len(E1)))
@@ -278,6 +287,15 @@ def run(ctx, pairs):
         if inp.value in (None, "hang", "crash") or inp.value.startswith("panic"):
             ctx.count("stall_reference_did_not_return")      # reported by the main part of the check
             continue
+        if why and cls == "order_differs":
+            # two parses of one input (the lexeme type is immaterial) apply different sequences / list them in a different
+            # order: the property's "function of the input" fails on this input
+            failed["prefix_of_undisturbed"] += 1
+            d = dict(ident)
+            d.update({"what": "two parses of the same input (harness stall without a stall, harness repair) differ: " + why,
+                      "stall_harness": base.short(), "repair_harness_first_sequences": ref.firsts()[:12], "harness_case_line": bl})
+            report(ctx, d)
+            continue
         if why and not (base.errors and not base.errors[-1][3]) and not (inp.errors and not inp.errors[-1][3]):
             lexeme_type_ok = False
             d = dict(ident)
@@ -335,7 +353,7 @@ def run(ctx, pairs):
             ctx.case("stall" + line, True)
             continue
         if not run_.stalled:
-            ctx.count("stall_position_not_reached(earlier give-up or different applied sequence)")
+            ctx.count("stall_position_not_reached(earlier give-up)")
         bad = shape_violations(run_.errors, run_.value, len(inp.toks), plain)
         cls, why = compare_with_base(run_, base)
         if why:
